@@ -7,13 +7,16 @@ drivers are compiled with `-I fw.REPO`, i.e. runtime headers are included as
 
 API (keep it small; C01/C04/C06/C19/C20 reuse it)
 
-  CppJob(name, emb, driver, defines=(), cxx="g++", cxxflags=None, run_args=())
+  CppJob(name, emb, driver, defines=(), cxx="g++", cxxflags=None, run_args=(), extra_drivers=None)
       name     unique identifier ([A-Za-z0-9_]+); the module is written to <workdir>/<name>/<name>.emb
       emb      text of the .emb file, or a dict {relative_file_name: text} whose first key is compiled
                (further files are importable); None = no module, driver only
       driver   C++ source; it should `#include "<name>.emb.h"` (the directory is on the include path)
       defines  e.g. ["EMBOSS_NO_OPTIMIZATIONS"]   (-D flags)
       cxxflags default ["-std=c++14", "-O0"]; pass e.g. sanitizer flags for C04
+      extra_drivers  optional {tag: C++ source}: further drivers built against the same generated header (compiled
+               concurrently with the main one, same flags); their outcome is in CppResult.extra[tag] = CppResult-like
+               object with .ok .stage .rc .log .lines (the job's .ok does not depend on them)
   run_jobs(workdir, jobs, parallel=16, timeout=300) -> {name: CppResult}
       Runs embossc -> compiler -> binary for every job, up to `parallel` jobs at once.
   CppResult
@@ -32,14 +35,16 @@ import concurrent.futures
 import os
 import shutil
 import subprocess
+import threading
 import time
 
 from harness import fw
 
 
 class CppJob:
-    def __init__(self, name, emb, driver, defines=(), cxx="g++", cxxflags=None, run_args=()):
+    def __init__(self, name, emb, driver, defines=(), cxx="g++", cxxflags=None, run_args=(), extra_drivers=None):
         self.name, self.emb, self.driver = name, emb, driver
+        self.extra_drivers = dict(extra_drivers or {})
         self.defines = list(defines)
         self.cxx = cxx
         self.cxxflags = list(cxxflags) if cxxflags is not None else ["-std=c++14", "-O0"]
@@ -51,6 +56,7 @@ class CppResult:
         self.name, self.dir = name, d
         self.ok, self.stage, self.rc, self.log = False, "embossc", None, ""
         self.lines, self.header, self.times = [], None, {}
+        self.extra = {}
 
     def __repr__(self):
         return "CppResult(%s ok=%s stage=%s rc=%s)" % (self.name, self.ok, self.stage, self.rc)
@@ -96,29 +102,42 @@ def _one(workdir, job, timeout):
         if rc != 0 or not os.path.exists(res.header):
             res.rc, res.log = rc, "\n".join(l for l in out.splitlines() if "WARNING conda" not in l)[-6000:]
             return res
-    # --- compile
-    res.stage = "compile"
-    src = os.path.join(d, "driver.cc")
-    with open(src, "w") as f:
-        f.write(job.driver)
-    exe = os.path.join(d, "driver")
-    t0 = time.time()
-    rc, out, _ = _run([job.cxx] + job.cxxflags + ["-D" + x for x in job.defines] +
-                      ["-I", fw.REPO, "-I", d, src, "-o", exe], d, timeout)
-    res.times["compile"] = time.time() - t0
-    if rc != 0:
-        res.rc, res.log = rc, out[-6000:]
-        return res
-    # --- run
-    res.stage = "run"
-    t0 = time.time()
-    rc, out, err = _run([exe] + job.run_args, d, timeout, capture_stdout_separately=True)
-    res.times["run"] = time.time() - t0
-    res.lines = out.splitlines()
-    if rc != 0:
-        res.rc, res.log = rc, (err or "")[-4000:] + "\n[last stdout lines]\n" + "\n".join(res.lines[-5:])
-        return res
-    res.stage, res.ok, res.rc = "done", True, 0
+    # --- compile + run (extra drivers concurrently)
+    def build_run(tag, text, r):
+        r.stage = "compile"
+        src = os.path.join(d, "driver%s.cc" % tag)
+        with open(src, "w") as f:
+            f.write(text)
+        exe = os.path.join(d, "driver%s" % tag)
+        t0 = time.time()
+        rc, out, _ = _run([job.cxx] + job.cxxflags + ["-D" + x for x in job.defines] +
+                          ["-I", fw.REPO, "-I", d, src, "-o", exe], d, timeout)
+        r.times["compile"] = time.time() - t0
+        if rc != 0:
+            r.rc, r.log = rc, out[-6000:]
+            return r
+        r.stage = "run"
+        t0 = time.time()
+        rc, out, err = _run([exe] + job.run_args, d, timeout, capture_stdout_separately=True)
+        r.times["run"] = time.time() - t0
+        r.lines = out.splitlines()
+        if rc != 0:
+            r.rc, r.log = rc, (err or "")[-4000:] + "\n[last stdout lines]\n" + "\n".join(r.lines[-5:])
+            return r
+        r.stage, r.ok, r.rc = "done", True, 0
+        return r
+
+    threads = []
+    for tag, text in job.extra_drivers.items():
+        er = CppResult(job.name + ":" + tag, d)
+        er.header = res.header
+        res.extra[tag] = er
+        th = threading.Thread(target=build_run, args=("_" + tag, text, er))
+        th.start()
+        threads.append(th)
+    build_run("", job.driver, res)
+    for th in threads:
+        th.join()
     return res
 
 
